@@ -12,7 +12,7 @@ THEOREMS = [
     'Px.Ws.C16_roundtrip', 'Px.Ws.C16_mask_involutive', 'Px.Ws.C16_rfc',
     'Px.Ws.C16_reject_wide_opcode', 'Px.Sha1.C16_accept', 'Px.Sha1.C16_accept_rfc_example',
     'Px.Ws.C16_reset_forgets', 'Px.Ws.C16_loop', 'Px.Ws.C16_loop_close', 'Px.Ws.C16_loop_total',
-    'Px.Ws.C16_echo', 'Px.Ws.C16_no_reset_stale_mask_witness',
+    'Px.Ws.C16_echo', 'Px.Ws.C16_text', 'Px.Ws.C16_no_reset_stale_mask_witness',
 ]
 RULE = ('rt: frame (flags, opcode, masked, key, payload spec, tail) built and parsed back by the real '
         'WebsocketFrame and by the model; parse: arbitrary byte strings; accept: keys; distinct by canonical '
@@ -83,6 +83,11 @@ def impl(case):
         return _wsloop_impl(case)
     if k == 'inst':
         return [_inst_impl(case)]
+    if k == 'text':
+        try:
+            return ['ok ' + hx(F.WebsocketFrame.text(payload(case['data'])))]
+        except Exception as e:
+            return ['exc ' + exc_name(e)]
     if k == 'loop':
         return [_loop_impl(case)]
     if k == 'hs':
@@ -356,6 +361,8 @@ def model_lines(case):
     if k == 'hs':
         from proxy.http.websocket.frame import WebsocketFrame
         return ['ws accept %s %s' % (hx(WebsocketFrame.GUID), case['key'] or '-')]
+    if k == 'text':
+        return ['ws text ' + hx(payload(case['data']))]
     if k == 'inst':
         return ['ws inst %s %s' % (case['rnd'] or '-', ' '.join(case['ops']))]
     if k == 'loop':
@@ -444,6 +451,14 @@ def oracle(case):
             if line != want:
                 return 'frame-sequence-in-one-segment-not-delivered-frame-by-frame'
         return None
+    if k == 'text':
+        d = payload(case['data'])
+        raw = F.WebsocketFrame.text(d)
+        g = F.WebsocketFrame()
+        rest = g.parse(raw + b'\x81\x00')
+        ok = raw == rfc_encode([1, 0, 0, 0], 1, 0, b'', d) and rest == b'\x81\x00' and (g.data or b'') == d \
+            and g.fin and g.opcode == 1 and not g.masked and not (g.rsv1 or g.rsv2 or g.rsv3)
+        return None if ok else 'text()-frame-does-not-round-trip'
     if k == 'loop':
         if 'frames' not in case:
             return None
@@ -614,6 +629,8 @@ def generate(rng, tier):
                            'mask': bytes(rng.randrange(256) for _ in range(4)).hex() if masked else None,
                            'data': {'n': n, 'a': rng.randrange(256), 'b': rng.randrange(256)}})
         yield {'kind': 'wsloop', 'frames': frames}
+    for n in [0, 1, 125, 126, 127, 65535, 65536] + [rng.randrange(70000) for _ in range(10 if not big else 100)]:
+        yield {'kind': 'text', 'data': {'n': n, 'a': rng.randrange(256), 'b': rng.randrange(256)}}
     # reused-instance histories and the web loop on whole segments
     def rframe(ops=(0, 1, 2, 9, 10, 3, 15, 8)):
         masked = rng.randrange(2)
@@ -724,4 +741,4 @@ def describe(case):
 
 
 def nontrivial(case):
-    return in_quantifier(case) or case['kind'] in ('wsloop', 'hs', 'upfr', 'inst', 'loop')
+    return in_quantifier(case) or case['kind'] in ('wsloop', 'hs', 'upfr', 'inst', 'loop', 'text')
